@@ -297,6 +297,12 @@ pub fn other_builders() -> Vec<(&'static str, SerBuilder)> {
             Ok(vec![("check".to_string(), verdict(p.check_ref()))])
         })
     }));
+    v.push(("count-vectorizer-large-regex", |_| {
+        // a split expression whose compiled program is large: restoring must be able to rebuild it
+        use linfa_preprocessing::Tokenizer;
+        let m = CountVectorizer::params().tokenizer(Tokenizer::Regex(r"\b\w{2,300}\b".to_string())).fit(&Array1::from(DOCS.to_vec())).map_err(es)?;
+        ser!("count-vectorizer-large-regex", m, unordered, vec_behaviour)
+    }));
     v.push(("tfidf-vectorizer", |_| {
         let m = TfIdfVectorizer::default().n_gram_range(1, 2).fit(&Array1::from(DOCS.to_vec())).map_err(es)?;
         ser!("tfidf-vectorizer", m, unordered, |m: &linfa_preprocessing::tf_idf_vectorization::FittedTfIdfVectorizer| {
@@ -610,6 +616,43 @@ pub fn other_builders() -> Vec<(&'static str, SerBuilder)> {
         ser!("pca-params-variants", p, eq, |p: &linfa_reduction::PcaParams| {
             let d = make_data(10, 40, 4, false);
             Ok(vec![("refit".into(), refit_or_err(p.fit(&DatasetBase::from(d.x.clone())).map_err(es).map(|m| arr2(m.components()))))])
+        })
+    }));
+
+    // ---- models whose predictions involve exact ties (resolved the same way by the restored copy)
+    v.push(("gaussian-nb-tied-classes", |seed| {
+        // six classes fitted on identical observations: every posterior is exactly tied
+        let base = make_data(seed, 12, 2, false).x;
+        let reps = 6usize;
+        let x = Array2::from_shape_fn((base.nrows() * reps, 2), |(i, j)| base[[i % base.nrows(), j]]);
+        let y = Array1::from_shape_fn(base.nrows() * reps, |i| 100 + 7 * (i / base.nrows()));
+        let m = linfa_bayes::GaussianNb::<f64, usize>::params().fit(&Dataset::new(x, y)).map_err(es)?;
+        ser!("gaussian-nb-tied-classes", m, eq, |m: &linfa_bayes::GaussianNb<f64, usize>| {
+            let y: Array1<usize> = m.predict(&zoo::probe(8, 12, 2, false));
+            Ok(vec![("predict".into(), format!("{:?}", y.to_vec()))])
+        })
+    }));
+    v.push(("multinomial-nb-tied-classes", |seed| {
+        let base = make_data(seed, 10, 3, false).xcount;
+        let reps = 5usize;
+        let x = Array2::from_shape_fn((base.nrows() * reps, 3), |(i, j)| base[[i % base.nrows(), j]]);
+        let y = Array1::from_shape_fn(base.nrows() * reps, |i| 3 + 11 * (i / base.nrows()));
+        let m = linfa_bayes::MultinomialNb::<f64, usize>::params().fit(&Dataset::new(x, y)).map_err(es)?;
+        ser!("multinomial-nb-tied-classes", m, eq, |m: &linfa_bayes::MultinomialNb<f64, usize>| {
+            let y: Array1<usize> = m.predict(&zoo::probe(8, 12, 3, true));
+            Ok(vec![("predict".into(), format!("{:?}", y.to_vec()))])
+        })
+    }));
+    v.push(("tree-tied-leaves-model", |_| {
+        let x = array![[0.0, 1.0], [0.0, 1.0], [1.0, 0.0], [1.0, 0.0], [2.0, 2.0], [2.0, 2.0], [2.0, 2.0]];
+        let y = array![0usize, 1, 2, 3, 4, 5, 6];
+        let m = linfa_trees::DecisionTree::params().fit(&Dataset::new(x, y)).map_err(es)?;
+        ser!("tree-tied-leaves-model", m, eq, |m: &linfa_trees::DecisionTree<f64, usize>| {
+            let q = array![[0.0, 1.0], [1.0, 0.0], [2.0, 2.0], [5.0, 5.0]];
+            let y: Array1<usize> = m.predict(&q);
+            let mut f = m.features();
+            f.sort_unstable();
+            Ok(vec![("predict".into(), format!("{:?}", y.to_vec())), ("features(sorted)".into(), format!("{f:?}"))])
         })
     }));
 
